@@ -275,6 +275,14 @@ REGEX_FAMILIES = {
     "nested-quote-mix": lambda n: "int c = '" + "\\x" * n + "';",
     "line-directive-long": lambda n: "# 1 \"" + "a\\\\" * n + "\"\nint x;",
     "pragma-long": lambda n: "#pragma " + "x " * n + "\nint x;",
+    # one long run of blanks / tabs inside and at the end of directive lines and between tokens
+    "pragma-blank-run-inside": lambda n: "#pragma omp parallel" + " " * n + "for\nint x;",
+    "pragma-tab-run-inside": lambda n: "#pragma a" + "\t " * (n // 2) + "b" + " " * 3 + "\nint x;",
+    "pragma-blank-run-end": lambda n: "#pragma once" + " " * n + "\nint x;",
+    "line-blank-run": lambda n: "#line" + " " * n + "7" + " " * n + "\"f.c\"" + " " * n + "\nint x;",
+    "hash-blank-run": lambda n: "#" + " " * n + "pragma p\nint x;\n#" + "\t" * n + "3\nint y;",
+    "blank-run-between-tokens": lambda n: "int" + " " * n + "x" + "\t" * n + ";" + "\n" * n + "int y;",
+    "blank-lines-run": lambda n: "int x;" + ("\n" + " " * 3) * n + "\nint y;",
 }
 
 
@@ -390,7 +398,7 @@ def run(ctx):
     ctx.extra["pool_programs_tick_equal"] = len(ptexts)
     ctx.extra["families"] = {name: [(r[1], r[2], r[4], r[5]) for r in sorted(rows, key=lambda r: r[1]) if r[3] == "OK"] for name, rows in by.items()}
     # adversarial literal families: wall time with wide margins, and linear growth of time is not asserted
-    sizes = [24, 200, 2000] if ctx.quick() else [24, 200, 2000, 20000]
+    sizes = [24, 200, 2000, 20000] if ctx.quick() else [24, 200, 2000, 20000, 100000]
     lres = []
     for fam in REGEX_FAMILIES:      # serial; a family is abandoned at the first size that exhausts the budget
         for sz in sizes:
@@ -403,6 +411,19 @@ def run(ctx):
         limit = 2.0 if size < 5000 else 8.0
         if wall > limit:
             ctx.violation("lexer took %.1f s of processor time on %d characters of family %s" % (wall, size, name), {"kind": "regex-family", "family": name, "n": n})
+    # growth between the two largest sizes that finished: ten times the text may cost about ten times
+    # the processor time; a quadratic scan costs a hundred times (the absolute margins above only see it
+    # when the text is already very long)
+    byfam = {}
+    for name, n, size, wall in lres:
+        byfam.setdefault(name, []).append((size, wall))
+    for name, rows in byfam.items():
+        rows.sort()
+        if len(rows) >= 2:
+            (sa, ta), (sb, tb) = rows[-2], rows[-1]
+            if tb > 0.25 and tb / max(ta, 0.004) > 4.0 * (sb / max(1, sa)):
+                ctx.violation("lexer time grows faster than the text on family %s: %d characters %.3f s, %d characters %.3f s of processor time" % (name, sa, ta, sb, tb),
+                              {"kind": "regex-family", "family": name, "n": 20000})
     ctx.extra["regex_families_max_wall_s"] = round(max(w for _, _, _, w in lres), 3)
     ctx.rule("%d scalable families (k-fold repetition of every declaration/statement kind; depth-k nesting of parentheses, casts, sizeof, calls, subscripts, initializer braces, blocks, if/else and ?: chains, pointer/array/function declarators, structs, compound literals, type names and compound literals inside array bounds, every 'type name or expression?' decision nested inside itself: sizeof / _Alignof / cast / _Alignas / offsetof / _Atomic( / _Static_assert / compound literal with and without postfix, function-pointer parameters, designators; loops, switch/case, labels) at 3-5 sizes: deterministic amount of work (source lines executed during the parse in pycparser and in every library module it calls, via sys.settrace - loops inside a function and standard-library copies count), struct / enum specifiers shared by k declarators, must grow at most ~linearly between consecutive sizes and, over three sizes k / 2k / 4k, have no quadratic term carrying 3 percent (repetition) or 25 percent (nesting) of the work, token-stream and lexer call counts must equal the Lean model's tick counters exactly, on the families and on every program of the pool; %d adversarial literal families for the lexer regexes with processor-time margins" % (len(FAMILIES), len(REGEX_FAMILIES)))
     ctx.count(n_eval, nontrivial_n=n_eval)
@@ -429,8 +450,9 @@ def replay(ctx, payload):
             return share <= (0.25 if i["family"] in NESTING else 0.03)
         return True
     r = lex_time((i["family"], i["n"]))
-    print(r)
-    return r[3] < 8
+    r0 = lex_time((i["family"], max(1, i["n"] // 10)))
+    print(r0, r)
+    return r[3] < 8 and not (r[3] > 0.25 and r[3] / max(r0[3], 0.004) > 4.0 * (r[2] / max(1, r0[2])))
 
 
 def replay_finding(ctx, f):
